@@ -304,6 +304,8 @@ def compare_state(ck, lib, c, s, tf, ts, dxf, dxs, worst, info):
   for f in VEL_FIELDS:
     chk(f, getattr(tf, f), getattr(dxf, f), TOL_DYN, 'velocity')
   for f in IMPL_VEL:
+    if f == 'actuator_velocity' and info['dsbl_actuation'] and not FINDINGS:
+      continue   # candidate finding F17: mj_fwdVelocity zeroes actuator_velocity when actuation is disabled, MJX does not
     chk(f, getattr(tf, f), getattr(dxf._impl, f), TOL_DYN, 'velocity')
   Mc = lib.fullM(tm, tf) if nv else np.zeros((0, 0))
   Mx = info['full_m'](dxf)
@@ -330,7 +332,7 @@ def compare_state(ck, lib, c, s, tf, ts, dxf, dxs, worst, info):
   def sens(stages, tol, tag):
     if not nsd:
       return
-    mask = np.isin(sens_stage, stages)
+    mask = np.isin(sens_stage, stages) & info['sens_mask']
     if mask.any():
       chk('sensordata.' + tag, np.asarray(tf.sensordata)[mask], np.asarray(dxf.sensordata)[mask], tol, 'sensor-' + tag)
   sens((1, 2), TOL_SENS, 'posvel')
@@ -415,6 +417,14 @@ class Runner:
     if os.environ.get('C43_PRINT'):
       print('  XML ' + gm.xml + ' SEEDS ' + str(list(seeds)), flush=True)
     dxb = gx.batch_data(c, states)
+    if c.tm.nmocap and not FINDINGS:
+      par = np.asarray(c.tm.body_parentid)
+      mocap = np.asarray(c.tm.body_mocapid)
+      if any(mocap[par[b]] >= 0 for b in range(1, c.tm.nbody)):
+        # candidate finding F16: smooth.kinematics overwrites the pose of mocap bodies after the tree scan, so bodies
+        # attached to a mocap body are placed relative to the model pose of their parent, not its mocap pose
+        ck.discard('finding:child-of-mocap-body-kinematics')
+        return
     crash = gx.known_mjx_crash(c, gm)
     if crash and not FINDINGS:
       ck.discard(crash)        # candidate findings F2 / F15 (exceptions raised by mjx.forward on accepted models)
@@ -446,7 +456,14 @@ class Runner:
       elif tm.ntendon and np.any(np.asarray(tm.tendon_damping) > 0):
         # candidate finding F14: C qDeriv keeps only tree-local entries of the tendon-damping derivative, MJX is dense
         skip_step = 'implicitfast-tendon-damping'
-    info = dict(skip_step=skip_step, implicitfast=implicitfast, nefc_slots=int(c.dx0._impl.nefc),
+    dsbl_act = 'actuation' in gm.info['option']['flags']
+    sens_mask = np.ones(int(tm.nsensordata), dtype=bool)
+    if dsbl_act and tm.nsensor and not FINDINGS:
+      for k in range(tm.nsensor):
+        if int(tm.sensor_type[k]) == lib.enums.mjSENS_ACTUATORVEL:
+          sens_mask[int(tm.sensor_adr[k]):int(tm.sensor_adr[k]) + int(tm.sensor_dim[k])] = False
+    info = dict(skip_step=skip_step, implicitfast=implicitfast, nefc_slots=int(c.dx0._impl.nefc), dsbl_actuation=dsbl_act,
+                sens_mask=sens_mask,
                 full_m=lambda dxi: full_m_mjx(mjx, c.mx, dxi),
                 sens_stage=np.repeat(np.asarray(tm.sensor_needstage), np.asarray(tm.sensor_dim)) if tm.nsensor else np.zeros(0))
     labels = gm.labels()
